@@ -171,15 +171,54 @@ def run_one(devs, budgets, host_active=True, order="host-first", eq_initial="ONL
                 bad((f"event-content|{tag}", {"got": got}))
 
         first, second = (host, eq) if order == "host-first" else (eq, host)
+        if phase == "subrace":
+            s.frozen = True  # the delays belong to the subscription, not to the start-up
         first.enable()
         second.enable()
         if not both_communicating("start"):
             return
         if phase == "handshake":
             return
+        if phase == "subrace":
+            # the equipment triggers the event the moment the host's request has enabled it - the host is still inside its subscribe call.
+            # "every collection event triggered while it is enabled reaches the host exactly once"
+            n0 = len(received)
+
+            # (the first two transactions of the subscription - define report, link event - run under the default schedule: the choices
+            # start when the equipment begins to handle the enable request)
+            inner = eq._on_s02f37
+
+            def on_s02f37(handler, message):
+                s.frozen = False
+                return inner(handler, message)
+
+            eq.register_stream_function(2, 37, on_s02f37)
+
+            def trigger_when_enabled():
+                s.block(lambda: getattr(eq.registered_collection_events.get(50), "enabled", False), s.clock + 3 * T3, "wait enabled")
+                if getattr(eq.registered_collection_events.get(50), "enabled", False):
+                    eq.trigger_collection_events([50])
+
+            t = vrt.Thread(target=trigger_when_enabled, name="equipment-application")
+            t.start()
+            host.subscribe_collection_event(50, [30], report_id=1000)
+            t.join()
+            s.block(lambda: len(received) > n0, s.clock + T3 + 1, "wait event")
+            s.settle()
+            got = received[n0:]
+            if len(got) != 1:
+                bad((f"event-delivery-count={len(got)}|triggered-while-the-host-subscribes", {"got": got}))
+            elif got[0] != (50, 1000, [(30, "x")]):
+                bad(("event-content|triggered-while-the-host-subscribes", {"got": got}))
+            host.disable()
+            eq.disable()
+            step(("end",))
+            return
         services("first")
         event("first", True, 1000)
         # drop every subscription, subscribe the same event again: the event must arrive exactly once, with the new report only
+        # (a second report for the same event first: "drop every subscription" has two reports to remove from one event)
+        host.subscribe_collection_event(50, [30], report_id=1100)
         host.clear_collection_events()
         event("resubscribed", True)
         if phase == "midflight":
@@ -309,6 +348,14 @@ def run(ctx):
     for cfg in configs(False)[:2] + configs(False)[4:5]:
         st = explore.explore(ctx, run_one, {"sched": 0, "cut": 1}, f"c20-midflight-{cfg}", opts=dict(cfg, phase="midflight", cuts=True, paced=True), chunk=4)
         parts.append({"cfg": cfg, "phase": "midflight", "budgets": {"sched": 0, "cut": 1}, "executions": st["executions"], "outcomes": st["distinct_outcomes"]})
+        tot += st["executions"]
+        states += st["distinct_outcomes"]
+    # the equipment triggers the event as soon as it is enabled, while the host is still inside subscribe_collection_event: <= K delays
+    for cfg in configs(False)[:1] + configs(False)[4:5]:
+        bud = {"sched": 3 if ctx.thorough else 2, "cut": 0}
+        st = explore.explore(ctx, run_one, bud, f"c20-subscribe-race-{cfg}", opts=dict(cfg, phase="subrace"), chunk=8)
+        parts.append({"cfg": cfg, "phase": "subscribe-race", "budgets": bud, "executions": st["executions"], "outcomes": st["distinct_outcomes"],
+                      "levels_completed": st["levels_completed"]})
         tot += st["executions"]
         states += st["distinct_outcomes"]
     # one configuration: services phase under K = 1
